@@ -7,6 +7,7 @@ Theorems about the model `Infretis.ZeroSwap.retisSwapZero` / `quantisSwapZero`
 import Infretis.Lemmas.ZeroSwapTwice
 import Infretis.Lemmas.ZeroSwapAlg
 import Infretis.Lemmas.ZeroSwapTwiceV
+import Infretis.Lemmas.ZeroSwapInproc
 
 namespace Infretis.C11
 open Infretis.ZeroSwap Infretis.Engine
@@ -1619,5 +1620,167 @@ example : ∃ r, quantisSwapZero ExQ.e0 ExQ.e1 ([ExQ.fr 1 100 1 100, ExQ.fr (-1)
     ExQ.e0.maxlen ≤ ExQ.scC.rest.length + 2 ∧ ExQ.e0.maxlen ≤ ExQ.scD.rest.length + 2 ∧
     (ExQ.e0.i0 ≤ ExQ.e0.i1 ∧ ExQ.e0.i0 ≤ ExQ.e0.i2) ∧ ExQ.e0.i2 = ExQ.e1.i0 ∧ ExQ.e0.maxlen ≤ ExQ.e1.maxlen :=
   ⟨_, rfl, rfl, by decide, by decide, by decide, rfl, by decide⟩
+
+/-! ## Audit pass 2026-09-30: the engine hypothesis of the membership theorems, dead statuses, QuanTIS + λ₋₁ -/
+
+/-- **the in-process engines offer `path.maxlen` frames.**  The loop of `ASEEngine._propagate_from`
+    (`range(subcycles * maxlen)`, a frame when `i % subcycles == 0`) offers exactly `maxlen` frames, that of
+    `TurtleMDEngine._propagate_from` (`subcycles * maxlen + 1` iterations) `maxlen` or `maxlen + 1` — never fewer.
+    This is the hypothesis "the MD program does not end before the length limit" of `swap_members` /
+    `quantis_swap_members`, and the engines meet it with ZERO slack: `maxlen1 ≤ inprocSteps sub (maxlen1 − 1) ase + 2`
+    holds with equality for ASE (`swap_members_short_engine_counterexample`: one frame fewer and a truncated piece is
+    accepted).  The tie counts the frames the real engines offer (`inprocframes`) and sweeps the limit through the
+    untruncated lengths with both real engines (harness/props/c11_real.py). -/
+theorem inproc_offers_maxlen (sub maxlen : Nat) (ase : Bool) (hsub : 0 < sub) :
+    maxlen ≤ inprocOffered sub maxlen ase ∧ inprocOffered sub maxlen ase ≤ maxlen + 1 ∧
+      (ase = true → inprocOffered sub maxlen ase = maxlen) ∧
+      maxlen + 1 ≤ inprocSteps sub maxlen ase + 2 :=
+  ⟨(inprocOffered_bounds sub maxlen ase hsub).1, (inprocOffered_bounds sub maxlen ase hsub).2.1,
+   (inprocOffered_bounds sub maxlen ase hsub).2.2, by
+     have := (inprocOffered_bounds sub maxlen ase hsub).1
+     unfold inprocSteps; omega⟩
+
+example : inprocOffered 5 7 true = 7 ∧ inprocOffered 5 7 false = 8 ∧ inprocSteps 4 9 true = 8 ∧
+    inprocFill 5 7 true = some (7, false) ∧ inprocFill 3 4 false = some (4, false) := by decide
+
+/-- **ensemble membership between two in-process engines — no hypothesis on the MD program left.**
+    `swap_members` with the engine hypothesis discharged by the engines' own loop bound: for any deterministic
+    dynamics `D` run by ASE (`ase = true`) or TurtleMD with any `subcycles ≥ 1`, an accepted `retis_swap_zero` of valid
+    old paths (`maxlen0 ≤ maxlen1`, ordered [0-] interfaces, shared λ0) yields valid members, strictly shorter than
+    the limits. -/
+theorem swap_members_inproc (D : Dyn) (sub : Nat) (ase : Bool) (hsub : 0 < sub)
+    {e0 e1 : Ens} {old0 old1 : List Frame} {xi : Rat} {r : Result}
+    (h : retisSwapZeroInproc D.step D.opf D.vf sub ase e0 e1 old0 old1 xi = .ok r) (ha : r.accept = true)
+    (hm : e0.maxlen ≤ e1.maxlen)
+    (hord : e0.i0 ≤ e0.i1 ∧ e0.i0 ≤ e0.i2) (hlam : e0.i2 = e1.i0)
+    (hv0 : ValidMinus e0 old0) (hv1 : ValidPlus e1 old1) :
+    ValidMinus e0 r.path0 ∧ ValidPlus e1 r.path1 ∧
+      r.path0.length < e0.maxlen ∧ r.path1.length < e1.maxlen := by
+  unfold retisSwapZeroInproc at h
+  obtain ⟨first1, last0, _, _, h'⟩ := detV_unfold h ha
+  have hn := inprocSteps_enough sub e1.maxlen ase hsub
+  exact swap_members h' ha hm (by simp only [detScriptV, orbitV_length]; exact hn)
+    (by simp only [detScriptV, orbitV_length]; exact hn) hord hlam hv0 hv1
+
+namespace Short
+/-- a dynamics that drifts to the left: x ↦ x − 1, order parameter x -/
+def D : Dyn := { step := fun c => ⟨c.x - 1, c.v⟩, opf := (·.x), vf := fun _ => none }
+def fr (x : Int) : Frame := { op := x, cfg := ⟨x, 0⟩, vr := false, vpot := none }
+def e0 : Ens := { i0 := -50, i1 := 0, i2 := 0, maxlen := 6, scL := false, scR := true, wf := false, cap := none }
+def e1 : Ens := { i0 := 0, i1 := 1, i2 := 3, maxlen := 6, scL := true, scR := false, wf := false, cap := none }
+def old0 : List Frame := [fr 1, fr (-1), fr 1]
+def old1 : List Frame := [fr (-1), fr 1, fr 4]
+end Short
+
+/-- **the engine hypothesis has no slack.**  Valid old paths, `maxlen0 = maxlen1 = 6`, a dynamics that drifts left
+    from the first frame of the old [0+] path and never comes back: with the ASE loop bound the backward piece fills
+    its path of 5 frames, the new [0-] path has 6 = `maxlen0` frames and the swap is rejected 'BTX'; an engine that
+    offers ONE frame fewer (`inprocSteps − 1` steps: seeded change C11-r5-mut2) leaves 4 frames, the new [0-] path
+    `-4 -3 -2 -1 1` has 5 ≠ `maxlen0` frames and is ACCEPTED although it starts inside the state (left of λ0 = 0),
+    never having crossed. -/
+theorem swap_members_short_engine_counterexample :
+    (retisSwapZeroInproc Short.D.step Short.D.opf Short.D.vf 1 true Short.e0 Short.e1 Short.old0 Short.old1 0).toOption.map
+        (fun r => (r.accept, r.status)) = some (false, .BTX) ∧
+    (retisSwapZeroDetV Short.D.step Short.D.opf Short.D.vf (inprocSteps 1 (Short.e1.maxlen - 1) true - 1)
+        Short.e0 Short.e1 Short.old0 Short.old1 0).toOption.map (fun r => (r.accept, ops r.path0, ops r.path1)) =
+      some (true, [-4, -3, -2, -1, 1], [-1, 1, 0, -1]) ∧
+    Short.e0.maxlen ≤ Short.e1.maxlen ∧ ValidMinus Short.e0 Short.old0 ∧ ValidPlus Short.e1 Short.old1 ∧
+    (∀ p : List Frame, ops p = [-4, -3, -2, -1, 1] → ¬ ValidMinus Short.e0 p) := by
+  refine ⟨by decide, by decide, by decide, ?_, ?_, ?_⟩
+  · exact ⟨Short.fr 1, [Short.fr (-1)], Short.fr 1, rfl, by simp, Or.inl (by decide), by decide, by decide, by decide⟩
+  · exact ⟨Short.fr (-1), [Short.fr 1], Short.fr 4, rfl, by simp, by decide, by decide, by decide, by decide⟩
+  · rintro p hp ⟨f, mid, l, rfl, _, hf, _, _, _⟩
+    have hf' : f.op = -4 := by
+      simp only [ops, List.map_cons, List.cons_append, List.cons.injEq] at hp
+      exact hp.1
+    rcases hf with h1 | ⟨h2, _⟩
+    · rw [hf'] at h1; revert h1; decide
+    · revert h2; decide
+
+/-- the hypotheses of `swap_members_inproc` on the integer leap-frog engine run with the ASE loop bound -/
+example : ∃ r, retisSwapZeroInproc (dwDyn 64 64).step (dwDyn 64 64).opf (dwDyn 64 64).vf 3 true ExDet.e0 ExDet.e1
+      ExDet.old0 ExDet.old1 0 = .ok r ∧ r.accept = true ∧ ops r.path0 = [-4, -10, -6] ∧
+    ExDet.e0.maxlen ≤ ExDet.e1.maxlen ∧ (ExDet.e0.i0 ≤ ExDet.e0.i1 ∧ ExDet.e0.i0 ≤ ExDet.e0.i2) ∧ ExDet.e0.i2 = ExDet.e1.i0 :=
+  ⟨_, rfl, rfl, rfl, by decide, by decide, rfl⟩
+
+/-- **three of the fourteen QuanTIS statuses are dead.**  For well-formed old paths no input makes
+    `quantis_swap_zero` return 'QR*', 'QLR' or '0+R': `start_cond1` was checked to be "L" before; the start of the
+    forward completion is the frame that passed the one-step crossing (strictly right of λ0); the new [0+] path starts
+    with the [0-] shooting frame (strictly left of λ0).  (They guard against an engine that re-computes a different
+    order value for a configuration it is handed — outside the model: frame 0 of a trajectory carries the order value of
+    the system it was started from.)  With `quantis_status_table`: eleven statuses are possible. -/
+theorem quantis_dead_statuses {e0 e1 : Ens} {pre0 rest1 : List Frame} {sp1 last sp0 : Frame}
+    {scA scB scC scD : Script} {aa : Bool} {b0 b1 xi p : Rat} {r : Result}
+    (h : quantisSwapZero e0 e1 (pre0 ++ [sp1, last]) (sp0 :: rest1) scA scB scC scD aa b0 b1 xi p = .ok r) :
+    r.status ≠ .QRS ∧ r.status ≠ .QLR ∧ r.status ≠ .ZR := by
+  obtain ⟨_, _, _, hdr, _, _, _⟩ := quantis_status_table h
+  by_cases hd : r.draws = 1
+  · obtain ⟨v0r0, v0r1, v1r1, v1r0, g0, g1, hv1, hA, hv0, hB, hg0, hg1, _, _, _⟩ := quantis_energy_rule_frames h hd
+    obtain ⟨_, _, hl0, hl1, _, _⟩ := (quantis_input_table h).2.2.2.2.mp hd
+    obtain ⟨_, _, _, _, cE⟩ := quantisPre_cases e0 pre0 rest1 sp1 last sp0 scA scB b0 b1
+    obtain ⟨hok, _⟩ := cE g0 g1 v0r0 v1r1 hv1 hv0 hl0 hl1 hg0 hg1
+    have hP := hok v0r1 v1r0 hA hB
+    have hx1 : g1.op > e0.i2 := by
+      unfold oneStep at hg1
+      split at hg1
+      · cases hg1
+      · split at hg1
+        · split at hg1
+          · rename_i hh; simp only [Option.some.injEq] at hg1; rw [← hg1]; exact hh
+          · cases hg1
+        · cases hg1
+    unfold quantisSwapZero at h
+    simp only [hP] at h
+    split at h
+    · unfold quantisComplete at h
+      split at h
+      · cases h
+      · rename_i a st p0 p1 s0 s1 w rq hc
+        simp only [Except.ok.injEq] at h
+        subst h
+        have hf1 : (startFrame sp1 scB).op ≤ e0.i2 := by show sp1.op ≤ e0.i2; omega
+        have hg1' : ¬ (genFrame g1 false).op < e0.i2 := by show ¬ g1.op < e0.i2; omega
+        exact core_dead hc hf1 hg1'
+    · simp only [Except.ok.injEq] at h
+      subst h
+      simp [qres]
+  · have hc : r.status = .QNE ∨ r.status = .QLL ∨ r.status = .QS0 ∨ r.status = .QS1 := by
+      by_cases hcc : r.status = .QNE ∨ r.status = .QLL ∨ r.status = .QS0 ∨ r.status = .QS1
+      · exact hcc
+      · rw [if_neg hcc] at hdr; exact absurd hdr hd
+    rcases hc with hc | hc | hc | hc <;> simp [hc]
+
+/-- non-vacuity: the accepted QuanTIS swap of `ExQ` is well-formed input of `quantis_dead_statuses` -/
+example : ∃ r, quantisSwapZero ExQ.e0 ExQ.e1 ([ExQ.fr 1 100 1 100, ExQ.fr (-1) 101 1 101] ++ [ExQ.fr (-2) 102 1 102, ExQ.fr 1 103 1 103])
+      (ExQ.fr (-1) 200 1 400 :: [ExQ.fr 1 201 1 402, ExQ.fr 2 202 1 404, ExQ.fr 4 203 1 406])
+      ExQ.scA ExQ.scB ExQ.scC ExQ.scD false 1 1 0 1 = .ok r ∧ r.status = .ACC := ⟨_, rfl, rfl⟩
+
+namespace Lm1Q
+def fr (o x : Int) : Frame := { op := o, cfg := ⟨x, 1⟩, vr := false, vpot := some 0 }
+def g (o x : Int) : GenFrame := { op := o, cfg := ⟨x, 3⟩, vpot := some 0 }
+/-- the λ₋₁ variant: interfaces of [0-] are (λ₋₁, ·, λ0) = (-3, -2, 0), both start sides allowed -/
+def e0 : Ens := { i0 := -3, i1 := -2, i2 := 0, maxlen := 8, scL := true, scR := true, wf := false, cap := none }
+def e1 : Ens := { i0 := 0, i1 := 1, i2 := 3, maxlen := 8, scL := true, scR := false, wf := false, cap := none }
+/-- a [0-] path that ENDED ON THE LEFT (last frame -4 ≤ λ₋₁) -/
+def old0 : List Frame := [fr 1 100, fr (-1) 101, fr (-2) 102, fr (-4) 103]
+def old1 : List Frame := [fr (-1) 200, fr 1 201, fr 2 202, fr 4 203]
+def scA : Script := ⟨some 0, [g 1 500]⟩
+def scB : Script := ⟨some 0, [g 1 600]⟩
+def scC : Script := ⟨some 0, [g (-2) 300, g 1 301, g 1 302, g 1 303, g 1 304, g 1 305]⟩
+def scD : Script := ⟨some 0, [g 2 400, g 1 401, g (-1) 402, g 1 403, g 1 404, g 1 405]⟩
+end Lm1Q
+
+/-- **`quantis_swap_zero` has no λ₋₁ early reject.**  Same ensemble settings and the same [0-] path that ended on
+    the left for which `retis_swap_zero` answers '0-L' without asking the engines anything
+    (`lambda_minus_one_left_rejected`): `quantis_swap_zero` propagates four times and ACCEPTS.  `check_config` is
+    meant to exclude the combination ("Cannot run quantis with lambda_minus_one!") but tests
+    `if quantis and lambda_minus_one:` — a λ₋₁ of 0.0 is falsy and passes (setup.py:236; reported, C18's function). -/
+theorem quantis_lm1_left_not_rejected_counterexample :
+    (Lm1Q.e0.scL = true ∧ Lm1Q.e0.scR = true) ∧ Lm1Q.old0.getLast? = some (Lm1Q.fr (-4) 103) ∧
+      (Lm1Q.fr (-4) 103).op ≤ Lm1Q.e0.i0 ∧
+    (∃ r, retisSwapZero Lm1Q.e0 Lm1Q.e1 Lm1Q.old0 Lm1Q.old1 Lm1Q.scC Lm1Q.scD 0 = .ok r ∧ r.status = .ZL ∧ r.reqs = []) ∧
+    (∃ r, quantisSwapZero Lm1Q.e0 Lm1Q.e1 Lm1Q.old0 Lm1Q.old1 Lm1Q.scA Lm1Q.scB Lm1Q.scC Lm1Q.scD false 1 1 0 1 = .ok r ∧
+      r.accept = true ∧ r.reqs.length = 4 ∧ ops r.path0 = [1, -2, -1, 1] ∧ ops r.path1 = [-2, 1, 2, 1, -1]) :=
+  ⟨by decide, rfl, by decide, ⟨_, rfl, rfl, rfl⟩, ⟨_, rfl, rfl, rfl, rfl, rfl⟩⟩
 
 end Infretis.C11
